@@ -81,6 +81,10 @@ class Gen:
         seq = 1 if r.random() < ({"C07": 0.7, "C03": 0.5}.get(self.focus, 0.2)) else 0
         hid = r.randrange(12) if r.random() < 0.5 else r.choice([0, 1, 6, 7])
         body = r.randrange(self.nbodies)
+        if in_body:
+            # a handler subscribed from inside a handler gets a leaf body (no publish, no subscribe): otherwise bodies that
+            # subscribe handlers with their own body and publish to them double the work with every delivery
+            body = r.randrange(2)
         if seq and not asy:
             # a sync Sequential handler must not re-enter itself: leaf bodies, or the body that only publishes to the
             # leaf type (whose handlers all have leaf bodies, so nothing comes back)
